@@ -19,6 +19,7 @@
 -/
 import PicoSVG.Props.C11
 import PicoSVG.Model.Traverse
+import PicoSVG.Model.Passes
 import PicoSVG.Proofs.ZOrder
 
 set_option linter.unusedSectionVars false
@@ -144,5 +145,43 @@ theorem tree_replace_elsewhere (u : Nat) (r : List Nat) (cs : List Node) (h : u 
 theorem discard_pass_keeps_order (P : Cleanup.LocalPass) (u : Nat) (t : String) (a : Attrs) (cs : List Node) :
     (ZOrder.euids (Node.rewriteBelow P.f (.elem u t a cs))).Sublist (ZOrder.euids (.elem u t a cs)) :=
   ZOrder.pass_keeps_order P u t a cs
+
+/-! ## a nested svg's own presentation attributes (fix 270e3d0) -/
+
+/-- the presentation attributes the cascade lets a container hand to its content -/
+def presentationNames : List String :=
+  ["display", "fill", "fill-opacity", "fill-rule", "opacity", "stroke", "stroke-width", "stroke-linecap", "stroke-linejoin",
+   "stroke-miterlimit", "stroke-dasharray", "stroke-dashoffset", "stroke-opacity", "clip-rule", "color", "style"]
+/-- what places the viewport (consumed by the viewport transform and the overflow clip) -/
+def placementNames : List String :=
+  ["x", "y", "width", "height", "viewBox", "preserveAspectRatio", "transform", "overflow", "clip-path", "id"]
+
+/-- C02 (nested svg): every presentation attribute written on a nested `svg` is handed to the group that replaces it
+    (`SvgObj.nestedPresentation` is what `unnestSvg` puts on the outermost group; the table is regenerated from
+    `_NESTED_SVG_PRESENTATION_ATTRIB` on every run), with its value, -/
+theorem nested_svg_keeps_presentation (a : Attrs) (k v : String) (hk : k ∈ presentationNames) (h : (k, v) ∈ a) :
+    (k, v) ∈ SvgObj.nestedPresentation a := by
+  unfold SvgObj.nestedPresentation
+  rw [List.mem_filter]
+  refine ⟨h, ?_⟩
+  have : ∀ k ∈ presentationNames, Gen.nestedSvgPresentationAttrib.contains k = true := by decide
+  exact this k hk
+
+/-- the placement attributes are never copied (they are consumed by the viewport transform and clip), -/
+theorem nested_svg_consumes_placement (a : Attrs) (k v : String) (hk : k ∈ placementNames) :
+    (k, v) ∉ SvgObj.nestedPresentation a := by
+  unfold SvgObj.nestedPresentation
+  rw [List.mem_filter]
+  intro h
+  have : ∀ k ∈ placementNames, Gen.nestedSvgPresentationAttrib.contains k = false := by decide
+  have h2 := h.2
+  rw [this k hk] at h2
+  exact Bool.noConfusion h2
+
+/-- and the order in which they were written is kept -/
+theorem nested_svg_presentation_in_order (a : Attrs) : (SvgObj.nestedPresentation a).Sublist a := List.filter_sublist
+
+example : SvgObj.nestedPresentation [("x", "10"), ("display", "none"), ("viewBox", "0 0 5 5"), ("fill", "red"), ("overflow", "visible")]
+    = [("display", "none"), ("fill", "red")] := by decide
 
 end PicoSVG.Props.C02
